@@ -1,13 +1,340 @@
-"""C18 -- placeholder until the check is built"""
+"""C18 -- the simulated recession curve obeys the water-balance equation"""
+
+import os
+import sqlite3
+
+import numpy as np
+from scipy import integrate
+
+from .. import core, curves_common, data, gen_params, gen_planted, instrument, oracle_hydraulics as oh
+from .c17 import sy_reference
+
 PROPERTY = 'C18'
 LEVEL = 'exploration'
-SHARDS = {'quick': 1, 'thorough': 1}
-RULE = 'not built yet'
+SHARDS = {'quick': 4, 'thorough': 16}
+RULE = (
+    'Function level: G-params (specific yield and transmissivity of both kinds) x (ET, curvature) in {(0,+), (+,0), '
+    '(+,+)} x ascending and descending level grids below the transmissivity ceiling, handed to the real '
+    'compute_recession_curve.  Oracle: t[j]-t[i] against quad with every knot as break point and epsrel 1e-12 on the '
+    'same callables (1e-6 relative, the documented accuracy of the unaided per-cell quad); time increases as level '
+    'falls; mean equals the requested mean; values at shared levels unchanged (up to the mean shift) under '
+    'refinement and under reversal of the grid; with zero curvature ET * dt = -dW of the real compute_rise_curve.  '
+    'CLI level: planted / noisy datasets with time-varying ET (weekly, diurnal, random) and an assembled recession '
+    'curve through set-curvature and `spowtd simulate recession`: a spy on compute_recession_curve records the ET, '
+    'curvature and transmissivity callable the command really used; ET must equal the mean of the evapotranspiration '
+    'rows over all steps inside the intervals of recession_interval (recomputed from the base tables), curvature '
+    'must be m/km2 * 1e-3, transmissivity must be in m2/d; the table must list (level mm, measured d, simulated d) '
+    'from the highest to the lowest level and --observations must equal its third column; with zero curvature and '
+    'constant specific yield, ET is also read off consecutive rows of the output (black box).  Non-trivial: ET and '
+    'curvature both positive with the grid crossing >= 1 knot of each function; for the command: ET whose first-step '
+    'average differs from the interval average by > 5 %.'
+)
+ASSUMPTIONS = [
+    'reference integrals use the repository\'s own specific-yield and transmissivity callables (checked by C14-C16)',
+    'ET >= 0, curvature >= 0, not both zero; grids stay below the highest transmissivity knot / PEATCLSM ceiling',
+]
+SIZES = {'quick': dict(fn=72, cli=12), 'thorough': dict(fn=3000, cli=320)}
+REQUIRED = {
+    tier: {
+        'curves-vs-reference-quadrature': 40,
+        'combo:et-only': 8, 'combo:curvature-only': 8, 'combo:both': 15,
+        'descending-grids': 10,
+        'reversals-compared': 30,
+        'refinements-compared': 30,
+        'zero-curvature-water-balance-checked': 8,
+        'peatclsm-cases': 5,
+        'cli-et-checked-against-interval-average': 6,
+        'cli-et-first-step-average-differs-by-5-percent': 3,
+        'cli-tables-checked': 6,
+        'cli-black-box-et-checked': 1,
+    }
+    for tier in ('quick', 'thorough')
+}
+MIN_NONTRIVIAL = {'quick': 20, 'thorough': 800}
+
+
+def reference_dt(sy, T, grid, et, kappa, breaks):
+    f = lambda z: float(sy(z)) / (-et - kappa * float(T(z)))
+    out = [0.0]
+    for a, b in zip(grid[:-1], grid[1:]):
+        lo, hi = min(a, b), max(a, b)
+        pts = [p for p in breaks if lo < p < hi]
+        v, _ = integrate.quad(f, a, b, points=pts or None, epsrel=1e-12, epsabs=0, limit=200)
+        out.append(v)
+    return np.cumsum(out)
+
+
+def make_functions(rng, kind):
+    import spowtd.specific_yield as sy_mod
+    import spowtd.transmissivity as t_mod
+
+    if kind == 'spline':
+        psy = gen_params.spline_sy(rng)
+        lo, hi = psy['zeta_knots_mm'][0], psy['zeta_knots_mm'][-1]
+        pT = gen_params.spline_T(rng, z_lo=lo - rng.uniform(0, 0.5) * (hi - lo))
+        # keep conductivities moderate so that the curve is well scaled
+        sy = sy_mod.create_specific_yield_function(dict(psy))
+        T = t_mod.create_transmissivity_function(dict(pT))
+        ceiling = pT['zeta_knots_mm'][-1]
+        breaks = sorted(set(psy['zeta_knots_mm']) | set(pT['zeta_knots_mm']))
+        return psy, pT, sy, T, ceiling, breaks
+    psy = gen_params.peatclsm_sy(rng) if rng.random() < 0.5 else dict(gen_params.PUBLISHED_SY)
+    pT = dict(gen_params.PUBLISHED_T, zeta_max_cm=rng.choice([1.0, 5.0, 30.0]), Ksmacz0=10 ** rng.uniform(-2, 1))
+    sy = sy_mod.create_specific_yield_function(dict(psy))
+    T_s = t_mod.create_transmissivity_function(dict(pT))
+    T = lambda z: T_s(z) * 86400.0
+    return psy, pT, sy, T, pT['zeta_max_cm'] * 10 - 1.0, [float(v) for v in sy.zeta_knots_mm]
+
+
+def check_function_case(ctx, rng, kind, combo):
+    import spowtd.simulate_recession as sim
+    import spowtd.simulate_rise as sim_rise
+
+    rec = ctx.rec
+    rec.case()
+    psy, pT, sy, T, ceiling, breaks = make_functions(rng, kind)
+    lo = psy['zeta_knots_mm'][0] if kind == 'spline' else -600.0
+    hi = min(ceiling, psy['zeta_knots_mm'][-1] + 50.0 if kind == 'spline' else ceiling)
+    if hi <= lo:
+        hi = ceiling
+        lo = ceiling - 200.0
+    grid, mode = gen_params.level_grid(rng, lo - 0.3 * (hi - lo), hi, n=rng.randint(3, 16), beyond=False)
+    grid = np.array([g for g in grid if g < ceiling])
+    if len(grid) < 3:
+        return
+    descending = rng.random() < 0.4
+    if descending:
+        grid = grid[::-1].copy()
+        rec.hit('descending-grids')
+    et = 0.0 if combo == 'curvature-only' else rng.choice([0.5, 3.0, 4.15, rng.uniform(0.1, 8)])
+    kappa = 0.0 if combo == 'et-only' else rng.choice([2.36e-3, 1e-3, rng.uniform(1e-4, 1e-2)])
+    mean = rng.choice([0.0, 19.0, rng.uniform(-50, 50)])
+    case = {'kind': 'rec_fn', 'sy': psy, 'T': pT, 'grid': grid.tolist(), 'et': et, 'kappa': kappa, 'mean': mean, 'param_kind': kind}
+    rec.hit('combo:' + combo)
+    if kind == 'peatclsm':
+        rec.hit('peatclsm-cases')
+    call = lambda g, m: np.asarray(sim.compute_recession_curve(sy, T, np.array(g, dtype=float), m, kappa, et), dtype=float)
+    try:
+        t = call(grid, mean)
+    except Exception as exc:  # pylint: disable=broad-except
+        desc = core.describe_exception(exc)
+        if desc['origin'] == 'harness':
+            rec.inconclusive_because('harness exception: {}'.format(desc))
+        else:
+            rec.violation('compute_recession_curve-raises:' + desc['type'], {'exception': desc}, case, 'rec_fn')
+        return
+    ref = reference_dt(sy, T, grid, et, kappa, breaks)
+    scale = max(1e-12, float(np.max(np.abs(ref))))
+    d = (t - t[0]) - ref
+    rec.note_max('max relative difference to reference quadrature', float(np.max(np.abs(d))) / scale)
+    if float(np.max(np.abs(d))) > 1e-6 * scale:
+        i = int(np.argmax(np.abs(d)))
+        rec.violation('elapsed-time-difference-is-not-the-water-balance-integral',
+                      {'level': float(grid[i]), 't_minus_t0': float(t[i] - t[0]), 'integral': float(ref[i]), 'scale': scale}, case, 'rec_fn')
+        return
+    rec.hit('curves-vs-reference-quadrature')
+    # time increases as the level falls (sy >= 0 is not guaranteed between knots: test only where the reference agrees)
+    order = np.argsort(grid)
+    ts = t[order]
+    if float(np.min(np.asarray(sy(np.linspace(grid.min(), grid.max(), 200))))) > 0 and np.any(np.diff(ts) > 1e-9 * scale):
+        rec.violation('elapsed-time-does-not-increase-as-the-level-falls', {'levels': grid[order].tolist()[:8], 't': ts.tolist()[:8]}, case, 'rec_fn')
+        return
+    if abs(float(t.mean()) - mean) > 1e-9 * max(1.0, abs(mean), scale):
+        rec.violation('mean-differs-from-the-requested-mean', {'mean': float(t.mean()), 'requested': mean}, case, 'rec_fn')
+        return
+    # reversal
+    t_rev = call(grid[::-1], 0.0)[::-1]
+    d = (t_rev - t_rev[0]) - (t - t[0])
+    if float(np.max(np.abs(d))) > 2e-6 * scale:
+        rec.violation('values-at-shared-levels-change-when-the-grid-is-reversed', {'max_change': float(np.max(np.abs(d))), 'scale': scale}, case, 'rec_fn')
+        return
+    rec.hit('reversals-compared')
+    # refinement
+    fine = np.sort(np.concatenate([grid, 0.5 * (grid[:-1] + grid[1:])]))
+    if descending:
+        fine = fine[::-1]
+    t_fine = call(fine, 0.0)
+    idx = [int(np.where(fine == g)[0][0]) for g in grid]
+    d = (t_fine[idx] - t_fine[idx][0]) - (t - t[0])
+    if float(np.max(np.abs(d))) > 2e-6 * scale:
+        rec.violation('values-at-shared-levels-change-under-refinement', {'max_change': float(np.max(np.abs(d))), 'scale': scale}, case, 'rec_fn')
+        return
+    rec.hit('refinements-compared')
+    if kappa == 0.0:
+        W = np.asarray(sim_rise.compute_rise_curve(sy, np.array(grid, dtype=float), 0.0), dtype=float)
+        lhs = et * (t - t[0])
+        rhs = -(W - W[0])
+        sc = max(1e-9, float(np.max(np.abs(rhs))))
+        if float(np.max(np.abs(lhs - rhs))) > 1e-6 * sc:
+            rec.violation('zero-curvature-elapsed-time-times-ET-is-not-the-storage-released', {'max_difference': float(np.max(np.abs(lhs - rhs))), 'scale': sc}, case, 'rec_fn')
+            return
+        rec.hit('zero-curvature-water-balance-checked')
+    inside = [b for b in breaks if grid.min() < b < grid.max()]
+    if combo == 'both' and inside:
+        rec.mark_nontrivial(core.digest((psy, pT, grid.tolist(), et, kappa)))
+        if len(rec.samples) < 2:
+            rec.sample({'specific_yield': psy if kind == 'spline' else dict(psy), 'transmissivity': pT, 'grid_mm': grid.tolist()[:6],
+                        'et_mm_d': et, 'curvature_km': kappa, 't_d': t.tolist()[:6], 'reference': (ref + t[0]).tolist()[:6]})
+
+
+def own_interval_et(connection):
+    """mean ET (mm/d) over all time steps inside the intervals of recession_interval"""
+    starts = [r[0] for r in connection.execute('SELECT start_epoch FROM recession_interval')]
+    zi = dict(connection.execute("SELECT start_epoch, thru_epoch FROM zeta_interval WHERE interval_type='interstorm'"))
+    et = connection.execute('SELECT from_epoch, thru_epoch, evapotranspiration_mm_h FROM evapotranspiration ORDER BY from_epoch').fetchall()
+    vals = []
+    first = []
+    for s in starts:
+        t = zi[s]
+        rows = [v for a, b, v in et if a >= s and b <= t]
+        vals.extend(rows)
+        first.extend(v for a, b, v in et if a == s)
+    import math
+    return 24.0 * math.fsum(vals) / len(vals), 24.0 * math.fsum(first) / max(1, len(first)), len(vals)
+
+
+def check_cli_case(ctx, rng, index):
+    import yaml
+    import spowtd.simulate_recession as sim
+    import spowtd.transmissivity as t_mod
+
+    rec = ctx.rec
+    et_mode = ['diurnal', 'random', 'weekly'][index % 3]
+    case = gen_planted.gen(rng, et_mode=et_mode) if index % 4 else dict(gen_planted.gen_noisy(rng))
+    black_box = index % 2 == 0
+    curvature = 0.0 if black_box else rng.choice([2.36, 1.0, rng.uniform(0.1, 5)])
+    db = os.path.join(ctx.workdir, 'q{}.sqlite3'.format(index))
+    err = curves_common.make_curves_db(ctx, case, db)
+    if err:
+        rec.hit('dataset-without-both-curves: ' + err)
+        return
+    status, exc = data.cli(['set-curvature', db, repr(curvature)])
+    if exc is not None or status != 0:
+        rec.violation('set-curvature-fails', {'exception': core.describe_exception(exc) if exc else status}, case, 'rec_cli')
+        return
+    connection = sqlite3.connect(db)
+    view = connection.execute('SELECT zeta_mm, elapsed_time_s FROM average_recession_time ORDER BY zeta_mm').fetchall()
+    et_own, et_first, nsteps = own_interval_et(connection)
+    connection.close()
+    zlo, zhi = min(v[0] for v in view), max(v[0] for v in view)
+    kinds = ['spline'] if black_box else ['spline', 'peatclsm']
+    for kind in kinds:
+        rec.case()
+        if kind == 'spline':
+            n = rng.randint(4, 7)
+            sy_const = rng.choice([0.1, 0.25, 0.5])
+            psy = {'type': 'spline', 'zeta_knots_mm': [zlo - 10 + (zhi - zlo + 20) * i / (n - 1) for i in range(n)],
+                   'sy_knots': [sy_const] * n if black_box else sorted(rng.uniform(0.05, 0.9) for _ in range(n))}
+            m = rng.randint(2, 5)
+            pT = {'type': 'spline', 'zeta_knots_mm': [zlo - 50 + (zhi - zlo + 100) * i / (m - 1) for i in range(m)],
+                  'K_knots_km_d': sorted(10 ** rng.uniform(-3, 2) for _ in range(m)), 'minimum_transmissivity_m2_d': 10 ** rng.uniform(-2, 1)}
+        else:
+            psy = dict(gen_params.PUBLISHED_SY)
+            pT = dict(gen_params.PUBLISHED_T, zeta_max_cm=zhi / 10 + rng.choice([1.0, 20.0]))
+        params = {'specific_yield': psy, 'transmissivity': pT}
+        pfile = curves_common.write_yaml(os.path.join(ctx.workdir, 'q{}_{}.yml'.format(index, kind)), params)
+        wcase = dict(case, params=params, curvature=curvature)
+        spy = {}
+        contracts = instrument.Contracts()
+
+        def post(c, args, kwargs, result, spy=spy):
+            names = ['specific_yield', 'transmissivity_m2_d', 'zeta_grid_mm', 'mean_elapsed_time_d', 'curvature_km', 'et_mm_d']
+            seen = dict(zip(names, args))
+            seen.update(kwargs)
+            spy.update(seen)
+            spy['result'] = np.asarray(result, dtype=float).copy()
+            return None
+
+        contracts.wrap(sim, 'compute_recession_curve', post, snapshot=False)
+        outs = {}
+        try:
+            for obs in (False, True):
+                out = os.path.join(ctx.workdir, 'q{}_{}_{}.out'.format(index, kind, int(obs)))
+                argv = ['simulate', 'recession', db, pfile, '-o', out] + (['--observations'] if obs else [])
+                status, exc = data.cli(argv)
+                if exc is not None or status != 0:
+                    desc = core.describe_exception(exc) if exc else {'status': status}
+                    rec.violation('simulate-recession-fails', {'exception': desc, 'observations': obs}, wcase, 'rec_cli')
+                    break
+                import gc
+                gc.collect()
+                with open(out) as f:
+                    outs[obs] = f.read()
+        finally:
+            contracts.uninstall()
+        if len(outs) < 2:
+            continue
+        # --- what the command handed to compute_recession_curve
+        if 'et_mm_d' not in spy:
+            rec.inconclusive_because('spy on compute_recession_curve never fired')
+            continue
+        w = {'et_used_mm_d': float(spy['et_mm_d']), 'et_interval_average_mm_d': et_own, 'et_first_step_average_mm_d': et_first, 'steps_in_recession_intervals': nsteps}
+        if abs(spy['et_mm_d'] - et_own) > 1e-9 * max(1.0, abs(et_own)):
+            rec.violation('ET-used-is-not-the-average-over-the-recession-intervals', w, wcase, 'rec_cli')
+            continue
+        rec.hit('cli-et-checked-against-interval-average')
+        if abs(et_first - et_own) > 0.05 * et_own:
+            rec.hit('cli-et-first-step-average-differs-by-5-percent')
+            rec.mark_nontrivial(core.digest(('cli', kind, case['rain'][:30], case['et'][:30])))
+        if abs(spy['curvature_km'] - curvature * 1e-3) > 1e-15:
+            rec.violation('curvature-used-is-not-m_km2-times-1e-3', {'used': float(spy['curvature_km']), 'set': curvature}, wcase, 'rec_cli')
+            continue
+        Tref = t_mod.create_transmissivity_function(dict(pT))
+        zt = 0.5 * (zlo + zhi)
+        factor = 86400.0 if kind == 'peatclsm' else 1.0
+        if abs(float(spy['transmissivity_m2_d'](zt)) - float(Tref(zt)) * factor) > 1e-9 * abs(float(Tref(zt)) * factor):
+            rec.violation('transmissivity-used-is-not-in-m2-per-day', {'used': float(spy['transmissivity_m2_d'](zt)), 'expected': float(Tref(zt)) * factor}, wcase, 'rec_cli')
+            continue
+        # --- table
+        table = yaml.safe_load(outs[False])
+        header, rows = table[0], table[1:]
+        if header != ['Water level, mm', 'Measured elapsed time, d', 'Simulated elapsed time, d']:
+            rec.violation('table-header-differs', {'header': header}, wcase, 'rec_cli')
+            continue
+        exp = [(z, t / 86400.0) for z, t in reversed(view)]
+        ok = len(rows) == len(exp) and all(
+            abs(r[0] - e[0]) <= 1e-9 * max(1.0, abs(e[0])) and abs(r[1] - e[1]) <= 1e-12 * max(1.0, abs(e[1])) for r, e in zip(rows, exp))
+        if not ok:
+            rec.violation('table-rows-are-not-the-measured-master-curve-from-highest-to-lowest-level-in-mm',
+                          {'table_first': rows[:3], 'expected_first': exp[:3], 'n_table': len(rows), 'n_expected': len(exp)}, wcase, 'rec_cli')
+            continue
+        sim_col = [r[2] for r in rows]
+        if not np.allclose(sim_col, spy['result'][::-1], rtol=1e-12, atol=0):
+            rec.violation('simulated-column-is-not-the-computed-curve-reversed', {'column_first': sim_col[:3], 'computed_last': spy['result'][-3:].tolist()}, wcase, 'rec_cli')
+            continue
+        meas = np.array([r[1] for r in rows])
+        if abs(np.mean(sim_col) - meas.mean()) > 1e-9 * max(1.0, abs(meas.mean())):
+            rec.violation('simulated-mean-differs-from-measured-mean', {'simulated': float(np.mean(sim_col)), 'measured': float(meas.mean())}, wcase, 'rec_cli')
+            continue
+        vec = yaml.safe_load(outs[True])
+        if not outs[True].startswith('# Recession curve simulation vector\n') or vec != sim_col:
+            rec.violation('observations-vector-differs-from-the-table-column', {'vector_first': (vec or [])[:3], 'column_first': sim_col[:3]}, wcase, 'rec_cli')
+            continue
+        rec.hit('cli-tables-checked')
+        if black_box and len(rows) >= 3:
+            # curvature 0 and constant Sy: ET = Sy * (level drop) / (time elapsed) between any two rows
+            sy_const = psy['sy_knots'][0]
+            ests = [sy_const * (a[0] - b[0]) / (b[2] - a[2]) for a, b in zip(rows[:-1], rows[1:]) if b[2] != a[2]]
+            if ests and max(abs(e - et_own) for e in ests) > 1e-6 * et_own:
+                rec.violation('ET-read-off-the-output-is-not-the-interval-average', {'estimates': ests[:4], 'interval_average': et_own}, wcase, 'rec_cli')
+                continue
+            rec.hit('cli-black-box-et-checked')
+        if len(rec.samples) < 4:
+            rec.sample({'workload': 'simulate recession', 'kind': kind, 'et_mode': case.get('kind') + '/' + et_mode, 'spy': w, 'curvature_m_km2': curvature, 'table_first_rows': rows[:3]})
+    if os.path.exists(db):
+        os.remove(db)
 
 
 def run(ctx):
-    ctx.rec.inconclusive_because('check not built yet')
+    s = SIZES[ctx.tier]
+    rng = ctx.rng('fn')
+    combos = ['et-only', 'curvature-only', 'both', 'both']
+    for i in range(ctx.share(s['fn'])):
+        check_function_case(ctx, rng, 'peatclsm' if i % 6 == 5 else 'spline', combos[i % 4])
+    rng = ctx.rng('cli')
+    for i in range(ctx.share(s['cli'])):
+        check_cli_case(ctx, rng, i)
 
 
 def replay(ctx, case, module=None):
-    ctx.rec.inconclusive_because('check not built yet')
+    ctx.rec.inconclusive_because('C18 cases regenerate from the seed; rerun the tier with the same seed')
